@@ -95,7 +95,7 @@ func (r *Runner) doLifecycle(s *Step, rep *Reply) bool {
 			break
 		}
 		c := &MCtr{Key: s.Ctr, ID: r.newCtrID(), Pod: s.Pod, Name: s.Name, ReqMilli: s.Req, LimMilli: s.Lim,
-			MemLim: s.MemLim, MemReq: s.MemReq, InitCpus: s.InitCpus, InitMems: s.InitMems, State: StCreated}
+			MemLim: s.MemLim, MemReq: s.MemReq, Swap: s.Swap, InitCpus: s.InitCpus, InitMems: s.InitMems, State: StCreated}
 		c.OomAdj = r.M.OomAdj(p.QoS, s.MemReq)
 		c.Shadow = r.M.SpecRes(c)
 		r.M.Ctrs[s.Ctr] = c
